@@ -181,23 +181,44 @@ def r56(F):
                "an imported integer is produced from the number's f64 view (float -> int cast): integers above 2^53 change value "
                "(9007199254740993 -> 9007199254740992)")
         ai = [(b, t) for b, t in fn.calls() if callee(t).endswith("Number::as_i64")]
-        af = [b for b, t in fn.calls() if callee(t).endswith("Number::as_f64")]
         if not ai:
             if not bad:
                 raise AnchorError("as_i64 not found in %s and the Int payload's origin was not recognised" % fname)
             continue
         b, t = ai[0]
-        ok = False
-        for sb, st in util.enum_switches(fn, t["dest"]["l"]):
-            se = cfg.switch_edge(st, variant="Some")
-            ne = cfg.switch_edge(st, variant="None")
-            stop = util.ipdom(fn, sb)
-            sreg = util.region(fn, se, stop)
-            int_agg = any(b2 in sreg and rv["k"] == "agg" and rv.get("variant") == "Int" for b2, j, pl, rv, m in fn.assigns())
-            flt_in_some = any(b2 in sreg and rv["k"] == "agg" and rv.get("variant") == "Float" for b2, j, pl, rv, m in fn.assigns())
-            ok = int_agg and not flt_in_some and all(cfg.dominates(fn, ne, fb) for fb in af)
+        # with the integer view present (as_i64 is Some) no Val::Float may be built: decided on the paths, here or in the helper
+        # the two views are handed to
+        o = Origins(fn)
+        dest = t["dest"]["l"]
+        floats_here = {b2 for b2, j, pl, rv, m in fn.assigns() if rv["k"] == "agg" and rv.get("adt") == "ucglib::build::ir::Val" and rv.get("variant") == "Float"}
+        ok = True
+        seen_float = bool(floats_here)
+        if floats_here:
+            reach = cfg.reachable_ps(fn, t["t"], init={dest: "Some"}.items())
+            # ... and no Val::Float is built before the integer view was asked for at all
+            early = cfg.reachable(fn, 0, removed={b3 for b3, t3 in ai})
+            ok = not (reach & floats_here) and not (early & floats_here)
+        for f2 in fns[1:]:
+            fl2 = {b2 for b2, j, pl, rv, m in f2.assigns() if rv["k"] == "agg" and rv.get("adt") == "ucglib::build::ir::Val" and rv.get("variant") == "Float"}
+            if not fl2:
+                continue
+            seen_float = True
+            # which parameter of the helper receives the integer view
+            params = []
+            for cb, ct in fn.calls():
+                if callee(ct) == f2.name:
+                    for k, a in enumerate(ct["args"]):
+                        if ("call", callee(t), b) in o.at(a, cb):
+                            params.append(k + 1)
+            if not params:
+                ok = False       # the helper decides without the integer view
+                continue
+            reach = cfg.reachable_ps(f2, 0, init={params[0]: "Some"}.items())
+            if reach & fl2:
+                ok = False
+        need(seen_float, "%s: no Val::Float is built for a number" % fname)
         r.inst("%s:int-before-float" % conv, fn.where(b), ok,
-               "as_i64 Some -> Val::Int; as_f64 only on the None edge" if ok else "integer numbers can be imported as floats")
+               "with as_i64 = Some no path builds a Val::Float" if ok else "a number with an integer view can be imported as a float")
     fn = F.fn("ucglib::convert::toml::TomlConverter::convert_toml_val")
     ok = False
     for b in range(len(fn.blocks)):
